@@ -16,7 +16,7 @@ import (
 func init() {
 	register(&propDef{
 		id:      "C23",
-		explain: "Structural necessary conditions of 'the FS handler never serves a file outside its root': (R1) in the FS request handler every use of the request path to look up, build or open a file happens on paths where the NUL-byte test has passed; (R2) and, when the path came from a PathRewrite function (the rewriter field is not nil), where the '..'-segment test has passed as well - rewritten paths bypass URI normalisation; (R3) every file-system open/create/remove site of the package is reachable only from the request handler (or from the documented unguarded ServeFile family) - there is no other way in; the handler's configuration fields are assigned only during initialisation; (R4) the path normaliser behind RequestCtx.Path() applies every dot-related test ('.' presence, '/./', '/../') to the percent-decoded buffer, never to the raw encoded input, so encoded dot segments are removed like literal ones. (R5) the one byte pathToFilePath drops from the validated path is dropped only under its trailing-slash flag, and every caller computes that flag from comparing a path byte with '/' and nothing else - a last segment '..' followed by any other byte passes validation as an ordinary name. (R6) in pathToFilePath the request path is appended after the root only on paths that appended '/' last, or found the path starting with '/', or empty, or the root empty - Root+"x" names a sibling of the root. Not decided: that the normaliser equals RFC 3986 remove_dot_segments (C26), symlinks, case-insensitive file systems.",
+		explain: "Structural necessary conditions of 'the FS handler never serves a file outside its root': (R1) in the FS request handler every use of the request path to look up, build or open a file happens on paths where the NUL-byte test has passed; (R2) and, when the path came from a PathRewrite function (the rewriter field is not nil), where the '..'-segment test has passed as well - rewritten paths bypass URI normalisation; (R3) every file-system open/create/remove site of the package is reachable only from the request handler (or from the documented unguarded ServeFile family) - there is no other way in; the handler's configuration fields are assigned only during initialisation; (R4) the path normaliser behind RequestCtx.Path() applies every dot-related test ('.' presence, '/./', '/../') to the percent-decoded buffer, never to the raw encoded input, so encoded dot segments are removed like literal ones. (R5) the one byte pathToFilePath drops from the validated path is dropped only under its trailing-slash flag, and every caller computes that flag from comparing a path byte with '/' and nothing else - a last segment '..' followed by any other byte passes validation as an ordinary name. (R6) in pathToFilePath the request path is appended after the root only on paths that appended '/' last, or found the path starting with '/', or empty, or the root empty - the root immediately followed by a name byte names a sibling of the root. Not decided: that the normaliser equals RFC 3986 remove_dot_segments (C26), symlinks, case-insensitive file systems.",
 		run:     runC23,
 	})
 }
